@@ -810,10 +810,21 @@ SKIP_RECORD_PARSE:
                         return MATRIXSSL_SUCCESS;
                     }
                     psAssert(*c == SSL_RECORD_TYPE_HANDSHAKE); /* Finished */
+                    if (end - c < ssl->recordHeadLen)
+                    {
+                        /* Not even a record header: ignore the rest */
+                        *buf = end;
+                        return DTLS_RETRANSMIT;
+                    }
                     c += 11;                                   /* Skip type, version, epoch to get to length */
                     /* borrow rc since we will be leaving here anyway */
                     rc = *c << 8; c++;
                     rc += *c; c++;
+                    if (rc > end - c)
+                    {
+                        /* Length field points past the received data */
+                        rc = (int32) (end - c);
+                    }
                     c += rc; /* Skip FINISHED message we've already accepted */
                     *buf = c;
                 }
